@@ -1,5 +1,7 @@
 import PqModel.SearchMulti
 import PqModel.SearchNaN
+import PqModel.SearchPages
+import PqModel.SearchPagesF
 
 /-! # C06 — Page search by value never misses a page that contains the value
 
@@ -227,6 +229,75 @@ theorem multiIsAscending_blind_across_null_chunk :
         { nulls := [false, false], ix := { mins := [some 1, some 3], maxs := [some 2, some 4] }, asc := true, desc := false } ]
     multiIsAscending 0 cs = true ∧ findMultiGo false 0 cs 3 = 5 ∧ findMultiGo true 0 cs 3 = 5 := by decide
 
+/-! ## C06 on the VALUES of the pages (`SearchPages.lean`)
+
+The theorems above speak about recorded bounds. These start from what the pages hold: the index is built from
+the values by the writer's steps (`indexOfPages`: null filter, `Page.Bounds`, `IndexPage`, boundary order), the
+column order is the signed / unsigned comparison of bit patterns (`intKey`), and the conclusion is the property
+as stated: a value held by page `p` is never answered with a page after `p`. -/
+
+/-- For ANY bounds function that encloses the values in the column's order (`BoundsFor`: the contract of
+    `Page.Bounds`, whichever kernel computes it): `Find` on the index built from the pages returns, for a value
+    `x` of page `p`, a page `r ≤ p` whose recorded bounds contain `x`. Nulls anywhere, all-null pages, any number
+    of pages and any arrangement of values; both null orderings of the compare function. -/
+theorem find_no_miss_values {α} (nf : Bool) (z : Int) {bnd : List α → Option (α × α)} {key : α → Int}
+    (hb : BoundsFor bnd key) (pages : List (List (Option α))) (p : Nat) (hp : p < pages.length) (x : α)
+    (hx : some x ∈ pages.getD p []) :
+    let ix := indexOfPages bnd key pages
+    let r := find nf (writerOrder z ix == 1) ix (key x)
+    r ≤ p ∧ r < ix.n ∧ contains nf ix r (key x) = true :=
+  PqModel.Search.find_no_miss_values nf z hb pages p hp x hx
+
+/-- The integer columns: INT32/INT64 (`signed = true`) and UINT32/UINT64 (`signed = false`) of width `w`, bounds
+    by the portable loop (`Stats.bounds`, MIRROR of page_bounds_purego.go) in the column's own order. -/
+theorem find_no_miss_int_values (nf signed : Bool) (w : Nat) (pages : List (List (Option (BitVec w)))) (p : Nat)
+    (hp : p < pages.length) (x : BitVec w) (hx : some x ∈ pages.getD p []) :
+    let ix := indexOfPages (intBounds signed w) (intKey signed w) pages
+    let r := find nf (writerOrder 0 ix == 1) ix (intKey signed w x)
+    r ≤ p ∧ r < ix.n ∧ contains nf ix r (intKey signed w x) = true :=
+  PqModel.Search.find_no_miss_values nf 0 (intBounds_sound signed w) pages p hp x hx
+
+/-- UINT64 pages sorted across 2^63 after an all-null page: flagged ASCENDING, searched linearly because of
+    the null page, 2^63 + 5 found in page 2 (the hypotheses of `find_no_miss_int_values` are satisfiable) -/
+def uPages : List (List (Option (BitVec 64))) :=
+  [[none, none], [some 1#64, some 9223372036854775807#64], [some 9223372036854775808#64, some 9223372036854775813#64]]
+
+example : writerOrder 0 (indexOfPages (intBounds false 64) (intKey false 64) uPages) = 1 ∧
+    find false true (indexOfPages (intBounds false 64) (intKey false 64) uPages) (intKey false 64 9223372036854775813#64) = 2 := by
+  decide
+
+example := find_no_miss_int_values false false 64 uPages 2 (by decide) 9223372036854775813#64 (by decide)
+
+/-- page_bounds_amd64.go picks a kernel by the length of the page (`boundsDispatch`): as long as every kernel
+    encloses the values in the column's order, the threshold is irrelevant to `Find`. -/
+theorem find_no_miss_dispatched_kernels {α} (nf : Bool) (z : Int) (t : Nat) {big small : List α → Option (α × α)}
+    {key : α → Int} (hbig : BoundsFor big key) (hsmall : BoundsFor small key)
+    (pages : List (List (Option α))) (p : Nat) (hp : p < pages.length) (x : α) (hx : some x ∈ pages.getD p []) :
+    let ix := indexOfPages (boundsDispatch t big small) key pages
+    let r := find nf (writerOrder z ix == 1) ix (key x)
+    r ≤ p ∧ r < ix.n ∧ contains nf ix r (key x) = true :=
+  PqModel.Search.find_no_miss_values nf z (BoundsFor.dispatch t hbig hsmall) pages p hp x hx
+
+example := find_no_miss_dispatched_kernels false 0 32113 (intBounds_sound false 64) (intBounds_sound false 64)
+  uPages 1 (by decide) 1#64 (by decide)
+
+/-- Seeded change C06-4a on the model: pages of at least `t` values of a UINT64 column get their bounds from the
+    SIGNED kernel (here `t = 2`; the library's threshold is 32113). The page {1, 2^63} is recorded with
+    min = 2^63 > max = 1, no page's bounds contain its values and `Find` answers NumPages for 1. The signed kernel
+    does not satisfy `BoundsFor` under the unsigned key — the hypothesis `find_no_miss_dispatched_kernels` needs. -/
+theorem signed_kernel_on_unsigned_column_misses :
+    let pages : List (List (Option (BitVec 64))) := [[some 1#64, some 9223372036854775808#64], [some 7#64]]
+    let ix := indexOfPages (boundsDispatch 2 (intBounds true 64) (intBounds false 64)) (intKey false 64) pages
+    ix.mins = [some 9223372036854775808, some 7] ∧ ix.maxs = [some 1, some 7] ∧
+    find false (writerOrder 0 ix == 1) ix (intKey false 64 1#64) = 2 ∧
+    find false (writerOrder 0 ix == 1) ix (intKey false 64 7#64) = 1 := by decide
+
+theorem signed_kernel_not_sound_for_unsigned_key : ¬ BoundsFor (intBounds true 64) (intKey false 64) := by
+  intro h
+  have := h.encloses [1#64, 9223372036854775808#64] 9223372036854775808#64 1#64 (by decide) 1#64 (by simp)
+  revert this
+  decide
+
 /-! ## FLOAT / DOUBLE indexes with NaN bounds (`SearchNaN.lean`)
 
 `Type.Compare` of the float types answers 0 against NaN, so bounds are `FB` = null | NaN | rank and the mirrors
@@ -259,5 +330,38 @@ example := find_no_miss_writer_float false 0 fNaN 2 (by decide) (by
     `boundary-order-false-nan-page`, repaired by 2854665) -/
 theorem nan_page_binary_search_misses :
     containsF false fNaN 2 2 = true ∧ binarySearchF false fNaN 2 = 3 := by decide
+
+/-- FLOAT / DOUBLE on the values (`SearchPagesF.lean`): pages of float bit patterns with NaN values among them,
+    all-NaN pages and all-null pages, ANY bounds function keeping the float contract `BoundsForF` (bounds are values of
+    the page; a bound that is not NaN encloses the non-NaN values on its side). A non-NaN value of page `p` is
+    answered with a page `r ≤ p` whose recorded bounds contain it. -/
+theorem find_no_miss_float_values {α} (nf : Bool) (z : Int) {bnd : List α → Option (α × α)} {key : α → Int}
+    {nan : α → Bool} (hb : BoundsForF bnd key nan) (pages : List (List (Option α))) (p : Nat) (hp : p < pages.length)
+    (x : α) (hx : some x ∈ pages.getD p []) (hxn : nan x = false) :
+    let ix := indexOfPagesF bnd key nan pages
+    let r := findF nf (writerOrderF z ix == 1) ix (key x)
+    r ≤ p ∧ r < ix.n ∧ containsF nf ix r (key x) = true :=
+  PqModel.Search.find_no_miss_float_values nf z hb pages p hp x hx hxn
+
+/-- `floatPage.Bounds` / `doublePage.Bounds` (MIRROR `Stats.boundsNaN`: leading NaNs skipped, NaNs ignored, an all-NaN
+    page reports a NaN pair) keeps the contract, for FLOAT (`e m = 8 23`) and DOUBLE (`11 52`) bit patterns -/
+theorem float_bounds_keep_contract (e m : Nat) :
+    BoundsForF (floatBounds e m) (PqModel.Stats.fKey e m) (PqModel.Stats.fIsNaN e m) :=
+  floatBounds_sound e m
+
+/-- DOUBLE pages {NaN, 1.0}, {NaN, NaN}, {-2.0, null}: bounds (1,1), (NaN,NaN), (-2,-2); no order is claimed, the
+    linear search finds -2.0 in page 1 already (a NaN bound excludes nothing) — at or before page 2, as stated -/
+def dPages : List (List (Option (BitVec 64))) :=
+  [[some 0x7ff8000000000000#64, some 0x3ff0000000000000#64], [some 0x7ff8000000000000#64, some 0xfff8000000000001#64],
+   [some 0xc000000000000000#64, none]]
+
+example : (indexOfPagesF (floatBounds 11 52) (PqModel.Stats.fKey 11 52) (PqModel.Stats.fIsNaN 11 52) dPages).mins =
+      [.val 4607182418800017408, .nan, .val (-4611686018427387904)] ∧
+    writerOrderF 0 (indexOfPagesF (floatBounds 11 52) (PqModel.Stats.fKey 11 52) (PqModel.Stats.fIsNaN 11 52) dPages) = 0 ∧
+    findF false false (indexOfPagesF (floatBounds 11 52) (PqModel.Stats.fKey 11 52) (PqModel.Stats.fIsNaN 11 52) dPages)
+      (PqModel.Stats.fKey 11 52 0xc000000000000000#64) = 1 := by decide
+
+example := find_no_miss_float_values false 0 (float_bounds_keep_contract 11 52) dPages 2 (by decide)
+  0xc000000000000000#64 (by decide) (by decide)
 
 end PqModel.Props.C06
